@@ -315,6 +315,27 @@ def check(case, ctx):
         if err is not None or {(a, b) for a, b, _ in got} != exp:
             ctx.fail('sequential-partial', sorted(exp), err if err is not None else sorted(got),
                      call=['sequential_digest-partial-second', s, rules])
+        # length bounds on the complete sequential digest (inclusive, as in the simultaneous digest)
+        cfgs = [p.EnzymeConfig([r], 0, False, True) for r in rules]
+        for lo, hi in ((2, None), (None, 2), (2, 3), (1, 1)):
+            exp = {(a, b) for a, b in sim if (lo is None or b - a >= lo) and (hi is None or b - a <= hi)}
+            got, err = _spanset(ctx, p.sequential_digest, s, cfgs, lo, hi, 'span')
+            if err is not None or {(a, b) for a, b, _ in got} != exp:
+                ctx.fail('sequential-bounds', sorted(exp), err if err is not None else sorted(got),
+                         call=['sequential_digest', s, rules, lo, hi])
+        # three complete stages = the simultaneous digest with all three rules
+        if n <= 3:
+            for third in ('glu-c', 'asp-n', 'proalanase'):
+                if third in rules:
+                    continue
+                r3 = rules + [third]
+                sites3 = sorted(set(x for r in r3 for x in ref_sites(s, r)))
+                sim3 = {(a, b) for a, b, _ in ref_spans(n, sites3, 0, None, None, False)}
+                cfgs3 = [p.EnzymeConfig([r], 0, False, True) for r in r3]
+                got, err = _spanset(ctx, p.sequential_digest, s, cfgs3, None, None, 'span')
+                if err is not None or {(a, b) for a, b, _ in got} != sim3:
+                    ctx.fail('sequential-complete', sorted(sim3), err if err is not None else sorted(got),
+                             call=['sequential_digest', s, r3])
         ctx.outcome = [s, rules, len(sim)]
 
 
